@@ -21,6 +21,8 @@ proposal delivered:
 Loops over the children of the node are unrolled (6): obligations on such
 paths are labelled bounded.
 """
+import os
+
 import z3
 
 from pyvc import mk, sym
@@ -44,6 +46,10 @@ MUTATORS = [
     ('smtlib', 'CheckSatAssuming'), ('smtlib', 'LetElimination'),
     ('smtlib', 'RemoveAnnotation'), ('smtlib', 'RemoveRecursiveFunction'),
     ('smtlib', 'SimplifyQuotedSymbols'),
+    # tried and outside the reach of this engine (bounded native corpus only):
+    # SimplifyLogic needs str.replace (all occurrences) on a symbolic name,
+    # SimplifySymbolNames explodes in paths (flattened datatype declarations
+    # x slices of the symbol text; no verdict within 15 minutes)
     ('boolean', 'BoolDeMorgan'), ('boolean', 'BoolDoubleNegation'),
     ('boolean', 'BoolEliminateFalseEquality'),
     ('boolean', 'BoolEliminateImplication'),
@@ -100,6 +106,12 @@ _STR = z3.Concat(z3.Re(z3.StringVal('"')), z3.Star(z3.Union(
 _QSYM = z3.Concat(z3.Re(z3.StringVal('|')), z3.Star(
     z3.Diff(_ALL, z3.Re(z3.StringVal('|')))), z3.Re(z3.StringVal('|')))
 LEXEME = z3.Union(_TOK, _STR, _QSYM)
+# what the parser returns as a leaf: a lexeme, or a comment with its line
+# break (C07/C08: ';' up to and including the first line break)
+_NL = _re_chars('\n\r')
+_COMMENT = z3.Concat(z3.Re(z3.StringVal(';')), z3.Star(z3.Diff(_ALL, _NL)),
+                     _NL)
+INPUT_LEAF = z3.Union(LEXEME, _COMMENT)
 _DIGITS = z3.Plus(z3.Range('0', '9'))
 
 
@@ -112,6 +124,126 @@ def is_lexeme(text):
         return False
     return len(toks) == 1 and toks[0][0] in ('tok', 'str', 'qsym') and \
         toks[0][2] == 0 and toks[0][3] == len(text)
+
+
+def _input_texts(v, out=None, seen=None):
+    """The texts of leaves of the input inside the string term ``v``: the
+    accessor text(..) of a node term, or a free string constant."""
+    out = [] if out is None else out
+    seen = set() if seen is None else seen
+    if not z3.is_app(v) or v.get_id() in seen:
+        return out
+    seen.add(v.get_id())
+    if v.sort() == z3.StringSort() and (v.decl().name() == 'text' or (
+            v.num_args() == 0 and
+            v.decl().kind() == z3.Z3_OP_UNINTERPRETED)):
+        out.append(v)
+        return out
+    for c in v.children():
+        _input_texts(c, out, seen)
+    return out
+
+
+def _string_only(e, allowed_ids, memo):
+    """Is ``e`` built from string / integer / Boolean operations over the
+    allowed constants only (no node terms, no uninterpreted functions)?"""
+    i = e.get_id()
+    if i in memo:
+        return memo[i]
+    ok = True
+    if z3.is_quantifier(e) or z3.is_var(e):
+        ok = False
+    elif z3.is_app(e):
+        k = e.decl().kind()
+        if k == z3.Z3_OP_UNINTERPRETED:
+            ok = e.num_args() == 0 and i in allowed_ids
+        elif k in (z3.Z3_OP_DT_ACCESSOR, z3.Z3_OP_DT_CONSTRUCTOR,
+                   z3.Z3_OP_DT_RECOGNISER, z3.Z3_OP_DT_IS):
+            ok = False
+        if ok:
+            ok = all(_string_only(c, allowed_ids, memo)
+                     for c in e.children())
+    memo[i] = ok
+    return ok
+
+
+def prove_from_string_facts(p, formula, timeout_ms=20000):
+    """Sound weakening for goals about leaf texts: every text of an input
+    leaf is generalised to a fresh string constant, of the path condition
+    only the conjuncts that then speak about strings / integers alone are
+    kept, and validity is decided without the rest (node structure, sizes,
+    hashes), which only distracts the string solvers.  True = proved; False =
+    no verdict (the caller poses the obligation under the full path
+    condition)."""
+    texts = _input_texts(formula)
+    for c in p.pc:
+        if not sym.has_quantifier(c):
+            _input_texts(c, texts, None) if False else None
+    # generalise each input text (also those only the path condition has)
+    seen = {t.get_id() for t in texts}
+    for c in p.pc:
+        if sym.has_quantifier(c):
+            continue
+        for t in _input_texts(c):
+            if t.get_id() not in seen:
+                seen.add(t.get_id())
+                texts.append(t)
+    sub = [(t, z3.String('leaftext_%d' % k)) for k, t in enumerate(texts)]
+    allowed = {c.get_id() for _, c in sub}
+    memo = {}
+    hyps = []
+    for c in p.pc:
+        if sym.has_quantifier(c):
+            continue
+        c2 = z3.substitute(c, *sub) if sub else c
+        if _string_only(c2, allowed, memo):
+            hyps.append(c2)
+    # what being a lexeme means for a text that starts with a bar, spelt out
+    # for the solvers (consequence of C15/lemma/lexeme-with-a-bar-is-a-
+    # quoted-symbol, discharged on every run): it is | inner | with no bar
+    # inside.  inner is a fresh constant (skolemised existential).
+    from pyvc import verify
+    goal = z3.substitute(formula, *sub) if sub else formula
+    if not _string_only(goal, allowed | {
+            x.get_id() for x in _free_consts(goal)}, {}):
+        return False
+    # Implies(A, B): A joins the hypotheses
+    if z3.is_implies(goal):
+        hyps.append(goal.arg(0))
+        goal = goal.arg(1)
+    bar = z3.StringVal('|')
+    nobar = z3.Star(z3.Diff(_ALL, z3.Re(bar)))
+    for k, (_t, c) in enumerate(sub):
+        premise = z3.And(z3.InRe(c, INPUT_LEAF), z3.Length(c) >= 1,
+                         z3.SubString(c, 0, 1) == bar)
+        # do the hypotheses say that this text is a lexeme starting with a
+        # bar?  (small query; the solvers do not find the case by themselves)
+        if verify.solve(hyps, premise, 3000)[0] != 'proved':
+            continue
+        inner = z3.String('leafinner_%d' % k)
+        hyps.append(c == z3.Concat(bar, inner, bar))
+        hyps.append(z3.InRe(inner, nobar))
+    st, _be, _dt, _m, _smt2 = verify.solve(hyps, goal, timeout_ms)
+    if os.environ.get('MUTSYM_DEBUG'):
+        print('string-only query:', st, 'hyps', len(hyps), 'of', len(p.pc))
+        for h in hyps:
+            print('   H', str(h).replace('\n', ' ')[:200])
+        print('   G', str(goal).replace('\n', ' ')[:600])
+        print('   model', _m)
+    return st == 'proved'
+
+
+def _free_consts(e, out=None, seen=None):
+    out = [] if out is None else out
+    seen = set() if seen is None else seen
+    if not z3.is_app(e) or e.get_id() in seen:
+        return out
+    seen.add(e.get_id())
+    if e.num_args() == 0 and e.decl().kind() == z3.Z3_OP_UNINTERPRETED:
+        out.append(e)
+    for c in e.children():
+        _free_consts(c, out, seen)
+    return out
 
 
 def lexeme_obligation(p, data):
@@ -128,7 +260,12 @@ def lexeme_obligation(p, data):
             hyps.append(z3.InRe(d, _DIGITS))
             zs.append(d)
         else:
-            hyps.append(z3.InRe(v, LEXEME))
+            # only the text of a leaf of the input is known to be a lexeme
+            # (accessor text(..) of a node term, or a free constant standing
+            # for one); a derived string (slice, replace, ...) has to be
+            # shown to be one
+            for t in _input_texts(v):
+                hyps.append(z3.InRe(t, INPUT_LEAF))
             zs.append(v)
     whole = zs[0] if len(zs) == 1 else z3.Concat(*zs)
     return z3.Implies(z3.And(*hyps) if hyps else z3.BoolVal(True),
@@ -175,7 +312,13 @@ def make_run(theory, cname):
             if o.kind != 'return' or not eng.truth(o.value):
                 return  # rejected, or a contained failure (C04)
         try:
-            it = eng.call(eng.getattr(m, 'mutations'), [node], {})
+            if eng.hasattr(m, 'mutations'):
+                it = eng.call(eng.getattr(m, 'mutations'), [node], {})
+            else:
+                # a mutator that looks at the whole input: the node is a
+                # command of it
+                it = eng.call(eng.getattr(m, 'global_mutations'),
+                              [node, [node]], {})
             props = []
             for s in eng.iterate(it):
                 props.append(s)
@@ -212,8 +355,11 @@ def make_run(theory, cname):
                                            'creates a leaf that is not one '
                                            'token'})
                         else:
+                            f = lexeme_obligation(p, d)
+                            if prove_from_string_facts(p, f):
+                                f = z3.BoolVal(True)
                             p.oblige(f'C15/{N}/new-leaves-are-single-tokens',
-                                     mk_bool(lexeme_obligation(p, d)),
+                                     mk_bool(f),
                                      info={'leaf': repr(d)[:120],
                                            'signature': f'{N} creates a leaf '
                                            'that is not one token'})
@@ -234,11 +380,51 @@ def make_run(theory, cname):
     return run
 
 
+def run_lexeme_lemmas(eng, p):
+    """Facts about the lexeme language that prove_from_string_facts hands
+    to the solvers as hypotheses: proved here, for every string."""
+    t = z3.String('t')
+    bar = z3.StringVal('|')
+    p.oblige('C15/lemma/lexeme-with-a-bar-is-a-quoted-symbol',
+             z3.Implies(z3.And(z3.InRe(t, INPUT_LEAF), z3.PrefixOf(bar, t)),
+                        z3.InRe(t, _QSYM)))
+    # ... and a quoted symbol is | inner | with no bar inside
+    # ... and a quoted symbol is | inner | with no bar inside, inner being
+    # what stands between the first and the last character.  In pieces the
+    # solvers decide at once (z3 gives up on 'ends with a bar', cvc5 proves
+    # it in milliseconds: short z3 budget, then the fallback).
+    from pyvc import verify
+    L = z3.Length(t)
+    inner = z3.SubString(t, 1, L - 2)
+    q = [z3.InRe(t, _QSYM)]
+    pieces = {
+        'has-two-bars-at-least': (q, L >= 2),
+        'starts-with-a-bar': (q, z3.PrefixOf(bar, t)),
+        'ends-with-a-bar': (q, z3.SuffixOf(bar, t)),
+        'no-bar-inside': (q, z3.InRe(inner, z3.Star(
+            z3.Diff(_ALL, z3.Re(bar))))),
+        'is-bar-inner-bar': ([L >= 2, z3.PrefixOf(bar, t),
+                              z3.SuffixOf(bar, t)],
+                             t == z3.Concat(bar, inner, bar)),
+    }
+    for name, (hyp, goal) in pieces.items():
+        st, be = verify.solve(hyp, goal, 5000)[:2]
+        p.oblige(f'C15/lemma/quoted-symbol/{name}', st == 'proved',
+                 info={'status': st, 'backend': be})
+    # the first character, as the interpreter states it
+    p.oblige('C15/lemma/first-character-is-a-prefix',
+             z3.Implies(z3.And(z3.Length(t) >= 1,
+                               z3.SubString(t, 0, 1) == bar),
+                        z3.PrefixOf(bar, t)))
+
+
 def contracts(tier):
     A = [nm.ASSUME_LAZY, nm.ASSUME_EQ_CONTRACT,
          'symbol tables havocked; get_sort/get_bv_width/nodes.contains '
          'through their contracts; at most 6 proposals per path inspected']
-    cs = []
+    cs = [Contract('C15/lemma/lexemes', [], run_lexeme_lemmas,
+                   assumptions=['pure lemmas over the lexeme regular '
+                                'expressions (no code involved)'])]
     for theory, cname in MUTATORS:
         cs.append(Contract(f'mutator/{cname}',
                            [f'ddsmt.mutators_{theory}.{cname}.mutations'],
